@@ -79,7 +79,8 @@ AllConditional(ep, f, m) == \A i \in DOMAIN SM(ep).trans :
 LimitOf(ep, s)   == IF s \in DOMAIN SM(ep).limit THEN SM(ep).limit[s] ELSE 0
 TimeoutOf(ep, s) == IF s \in DOMAIN SM(ep).timeout THEN SM(ep).timeout[s] ELSE 0   \* microseconds; -1 = dynamic
 
-NoTimer == [armed |-> FALSE, state |-> "", at |-> 0, dur |-> 0]
+\* need: a state with a timeout was entered and its timer has not been armed yet
+NoTimer == [armed |-> FALSE, state |-> "", at |-> 0, dur |-> 0, need |-> FALSE]
 \* ab: message type of a receive transition request that recvLoop abandoned because it
 \* saw the stop signal first; stateLoop may still answer it afterwards
 NoCur   == [mt |-> -1, phase |-> "none", ab |-> -1]
@@ -154,15 +155,18 @@ Min2(a, b) == IF a < b THEN a ELSE b
 EvState(ep, s, t) ==
     IF st[ep] = "" /\ s # SM(ep).init THEN Fail("State: initial state is not the protocol's initial state")
     ELSE IF st[ep] # "" /\ s # st[ep] THEN Fail("State: state set without a matching transition")
+    ELSE IF timer[ep].need THEN Fail("TimerArm missing: a state with a timeout was entered without arming its timer")
     ELSE /\ st' = [st EXCEPT ![ep] = s]
-         /\ timer' = [timer EXCEPT ![ep] = NoTimer]          \* setState stops the previous timer first
+         \* setState stops the previous timer first; a non-initial state with a timeout must be armed next
+         /\ timer' = [timer EXCEPT ![ep] = [NoTimer EXCEPT !.need = (transCount[ep] > 0 /\ TimeoutOf(ep, s) # 0 /\ Agency(ep, s) # "none")]]
          /\ Keep(<<sm, linked, transCount, enq, pendTrans, firstPend, sendFailed, outBytes, batchCount,
                    wire, sent, inBuf, recvQ, cur, pend, sizes, recvErr, errCount, stopSeen, exits,
                    timeouts, handled>>)
 
 \* Trans(mt, from, to): stateLoop accepted a transition request
 EvTrans(ep, mt, from, to, t) ==
-    IF from # st[ep] THEN Fail("Trans: transition from a state that is not the current one")
+    IF timer[ep].need THEN Fail("TimerArm missing: a state with a timeout was entered without arming its timer")
+    ELSE IF from # st[ep] THEN Fail("Trans: transition from a state that is not the current one")
     ELSE IF ~HasTrans(ep, from, mt, to) THEN Fail("Trans: transition not in the state map")
     ELSE IF Agency(ep, from) = ep THEN
         \* we hold agency: this must be the send transition of the oldest dequeued message
@@ -348,7 +352,7 @@ EvTimerArm(ep, s, dur, t) ==
     ELSE IF TimeoutOf(ep, s) = 0 THEN Fail("TimerArm: state has no timeout")
     ELSE IF TimeoutOf(ep, s) > 0 /\ dur # TimeoutOf(ep, s) THEN Fail("TimerArm: duration is not the state's timeout")
     ELSE IF timer[ep].armed THEN Fail("TimerArm: previous timer still armed")
-    ELSE /\ timer' = [timer EXCEPT ![ep] = [armed |-> TRUE, state |-> s, at |-> t, dur |-> dur]]
+    ELSE /\ timer' = [timer EXCEPT ![ep] = [armed |-> TRUE, state |-> s, at |-> t, dur |-> dur, need |-> FALSE]]
          /\ Keep(<<sm, linked, st, transCount, enq, pendTrans, firstPend, sendFailed, outBytes, batchCount,
                    wire, sent, inBuf, recvQ, cur, pend, sizes, recvErr, errCount, stopSeen, exits, timeouts,
                    handled>>)
